@@ -280,11 +280,11 @@ func runC12Case(c c12Case) *c12Outcome {
 		if !errors.Is(run.WaitErr, errInjectedOnTracks) && !(c.Script == "ll" && run.WaitErr != nil && !isEOS) {
 			fail("ontracks-error", "%s: OnTracks returned an error but Wait() yielded %v", c, run.WaitErr)
 		}
-	case (c.Fault == "status404" || c.Fault == "status500" || c.Fault == "transport" || c.Fault == "transport-ctx" || c.Fault == "transport-deadline" || c.Fault == "body-ctx") && faultHit && !closed.Load():
+	case (c.Fault == "status404" || c.Fault == "status500" || c.Fault == "transport" || c.Fault == "transport-ctx" || c.Fault == "transport-deadline" || c.Fault == "body-ctx" || c.Fault == "status503-stall") && faultHit && !closed.Load():
 		if isEOS || run.WaitErr == nil {
 			fail("http-error-lost", "%s: request %d failed (%s) but Wait() yielded %v", c, c.At, c.Fault, run.WaitErr)
 		}
-		if c.Fault == "status404" && !strings.Contains(fmt.Sprint(run.WaitErr), "404") || c.Fault == "status500" && !strings.Contains(fmt.Sprint(run.WaitErr), "500") {
+		if c.Fault == "status404" && !strings.Contains(fmt.Sprint(run.WaitErr), "404") || c.Fault == "status500" && !strings.Contains(fmt.Sprint(run.WaitErr), "500") || c.Fault == "status503-stall" && !strings.Contains(fmt.Sprint(run.WaitErr), "503") {
 			fail("http-error-other", "%s: request %d failed with %s but Wait() yielded %q", c, c.At, c.Fault, run.WaitErr)
 		}
 	case c.Fault == "none" && c.Close == "none":
@@ -309,7 +309,7 @@ func runC12Case(c c12Case) *c12Outcome {
 func enumerateC12(script string, baseRequests, baseUnits int, tier string) []c12Case {
 	var cases []c12Case
 	cases = append(cases, c12Case{"C12", script, "none", 0, "none", 0, "once"})
-	for _, f := range []string{"status404", "status500", "transport", "stall", "truncate", "transport-ctx", "transport-deadline", "body-ctx"} {
+	for _, f := range []string{"status404", "status500", "transport", "stall", "truncate", "transport-ctx", "transport-deadline", "body-ctx", "status503-stall"} {
 		for i := 0; i < baseRequests; i++ {
 			cases = append(cases, c12Case{"C12", script, f, i, "none", 0, "once"})
 		}
